@@ -3,8 +3,35 @@
 
 package utility
 
+import (
+	"sync"
+	"time"
+)
+
 // Verification hook (build tag "verif" only): never query NTP; GetTime uses the local
 // clock with a zero offset. Without the tag this file is not compiled.
 func init() {
 	ntpInitFlag = true
+}
+
+var (
+	verifClockLock sync.Mutex
+	verifClock     func() time.Time
+)
+
+// VerifSetClock installs a clock that GetTime reports instead of the wall clock (nil restores it).
+func VerifSetClock(f func() time.Time) {
+	verifClockLock.Lock()
+	verifClock = f
+	verifClockLock.Unlock()
+}
+
+func verifNow() (time.Time, bool) {
+	verifClockLock.Lock()
+	f := verifClock
+	verifClockLock.Unlock()
+	if f == nil {
+		return time.Time{}, false
+	}
+	return f(), true
 }
